@@ -1,5 +1,5 @@
 \* repaired design (the tree after the fix): Close never closes the channel, sends select on done
-CONSTANTS Q = 2 NClient = 2 NServer = 2 Calls = {k1, k2, k3} CloseClosesChan = FALSE DrainByCount = FALSE
+CONSTANTS Q = 2 NClient = 2 NServer = 2 Calls = {k1, k2, k3} CloseClosesChan = FALSE DrainByCount = FALSE SweepDone = FALSE
 SPECIFICATION Spec
 CHECK_DEADLOCK FALSE
 INVARIANTS C2S S2C NoPanic Statuses
